@@ -49,7 +49,9 @@ package gtree
 //@   ensures baked [C17]: current.brnch.value == specLine(dg.lastNodeFormat, dg.intermedialNodeFormat, current)
 //@   ensures noval [C17]: !dg.enabledValidation ==> result == nil
 //@   ensures valid [C17]: dg.enabledValidation && result == nil ==> validElem(current.name) && fsValid(specNodePath(current))
+//@   ensures path [C17]: current.hierarchy != 1 ==> current.brnch.path == specStoredPath(current)
 //@ loop gtree.defaultGrower.assembleBranch#1
+//@   invariant path: specPathUp(tmpParent, current.brnch.path) == specStoredPath(current)
 //@   invariant up: tmpParent != nil && tmpParent.hierarchy < current.hierarchy && (tmpParent.hierarchy == 1 || tmpParent.parent != nil)
 //@   invariant pre: specPrefix(dg.lastNodeFormat, dg.intermedialNodeFormat, tmpParent) ++ current.brnch.value == specPrefix(dg.lastNodeFormat, dg.intermedialNodeFormat, current.parent) ++ specConn(dg.lastNodeFormat, dg.intermedialNodeFormat, current)
 //@   decreases tmpParent.hierarchy
@@ -67,8 +69,8 @@ package gtree
 //@   ensures stablePath: forall n *Node :: {n.brnch.path} !specDesc(current, n) ==> n.brnch.path == old(n.brnch.path)
 //@ loop gtree.defaultGrower.assemble#1
 //@   invariant stablePath: forall n *Node :: {n.brnch.path} !specDesc(current, n) ==> n.brnch.path == old(n.brnch.path)
-//@   invariant selfValid: dg.enabledValidation ==> validElem(current.name) && fsValid(specNodePath(current))
-//@   invariant doneValid: dg.enabledValidation ==> (forall j int, n *Node :: {specDesc(current.children[j], n)} 0 <= j && j < $i && specDesc(current.children[j], n) ==> validElem(n.name) && fsValid(specNodePath(n)))
+//@   invariant selfValid: dg.enabledValidation ==> nodeValidated(current)
+//@   invariant doneValid: dg.enabledValidation ==> (forall j int, n *Node :: {specDesc(current.children[j], n)} 0 <= j && j < $i && specDesc(current.children[j], n) ==> nodeValidated(n))
 //@   invariant self: current.brnch.value == specLine(dg.lastNodeFormat, dg.intermedialNodeFormat, current)
 //@   invariant done: forall j int, n *Node :: {specDesc(current.children[j], n)} 0 <= j && j < $i && specDesc(current.children[j], n) ==> n.brnch.value == specLine(dg.lastNodeFormat, dg.intermedialNodeFormat, n)
 //@   invariant stable: forall n *Node :: {n.brnch.value} !specDesc(current, n) ==> n.brnch.value == old(n.brnch.value)
@@ -82,7 +84,7 @@ package gtree
 //@   ensures noval [C17]: !dg.enabledValidation ==> result == nil
 //@   ensures valid [C17]: dg.enabledValidation && result == nil ==> (forall k int :: {roots[k]} 0 <= k && k < len(roots) ==> validated(roots[k]))
 //@ loop gtree.defaultGrower.grow#1
-//@   invariant doneValid: dg.enabledValidation ==> (forall k int, n *Node :: {specDesc(roots[k], n)} 0 <= k && k < $i && specDesc(roots[k], n) ==> validElem(n.name) && fsValid(specNodePath(n)))
+//@   invariant doneValid: dg.enabledValidation ==> (forall k int, n *Node :: {specDesc(roots[k], n)} 0 <= k && k < $i && specDesc(roots[k], n) ==> nodeValidated(n))
 //@   invariant done: forall k int, n *Node :: {specDesc(roots[k], n)} 0 <= k && k < $i && specDesc(roots[k], n) ==> n.brnch.value == specLine(dg.lastNodeFormat, dg.intermedialNodeFormat, n)
 
 // ---------------------------------------------------------------------------------------------
